@@ -6,7 +6,8 @@ id=$1; shift
 wt=/tmp/xs-$id
 git -C /repo worktree remove --force $wt >/dev/null 2>&1
 git -C /repo worktree add -q --detach $wt HEAD || exit 9
-git -C $wt apply /verif/seeded/$id/patch.diff || { git -C /repo worktree remove --force $wt; exit 9; }
+pf=/verif/seeded/$id/patch.diff; [ -f /verif/seeded/$id/patch.rebased.diff ] && pf=/verif/seeded/$id/patch.rebased.diff  # (rebased by hand where a later fix: commit rewrote the lines the seed touches)
+git -C $wt apply $pf 2>/dev/null || (cd $wt && patch -p1 -s --fuzz=3 --no-backup-if-mismatch < $pf) || { echo "$id: PATCH-DOES-NOT-APPLY on the current /repo HEAD"; git -C /repo worktree remove --force $wt; exit 9; }
 export VERIF_REPO_SRC=$wt/src
 cd /verif
 for pr in "$@"; do
